@@ -46,7 +46,7 @@ class C07(IRProp):
     id = "C07"
     prop_file = "Properties/C07.v"
     tag = "c07"
-    genopts = dict(with_aux=False, with_cfi=False, mods="ins", max_mods=0)
+    genopts = dict(with_aux=False, with_cfi=False, mods="ins", max_mods=0, orphan_code=0.35, with_syscall=True)
     sizes = {"quick": 500, "thorough": 3000, "boost": 1500}
     trusted_base = ["Coq 8.16.1 kernel",
                     "hand model IR/Scopes.v of scopes.py and _ModificationStore (tied by comparing, per block, the plan of the model with "
@@ -144,7 +144,7 @@ class C07(IRProp):
             parts.append(f"{nid(f.get_name())} {len(en)} " + " ".join(map(str, en)) + f" {len(ex)} " + " ".join(map(str, ex)))
         x = case.blocks[i]
         sizes = [len(irgen.ENC[k]) for k, _ in x["ins"]] if x["kind"] == "c" else []
-        term = x["kind"] == "c" and x["ins"][-1][0] in ("jmp", "jcc", "call", "ret")
+        term = x["kind"] == "c" and x["ins"][-1][0] in irgen.TERMINATORS
         fidx = x.get("func")
         parts.append(f"{i} {1 if x['kind'] == 'c' else 0} {-1 if fidx is None else fidx} {len(sizes)} " + " ".join(map(str, sizes)) + f" {1 if term else 0}")
 
@@ -258,7 +258,7 @@ class C07(IRProp):
                     off = 0
                 elif pos == "X":
                     sizes = [len(irgen.ENC[k]) for k, _ in x["ins"]]
-                    off = sum(sizes[:-1]) if x["ins"][-1][0] in ("jmp", "jcc", "call", "ret") else sum(sizes)
+                    off = sum(sizes[:-1]) if x["ins"][-1][0] in irgen.TERMINATORS else sum(sizes)
                 else:
                     off = None        # ANYWHERE: any boundary not behind the terminator
                 want.append((rid, off))
@@ -267,7 +267,7 @@ class C07(IRProp):
                 return f"block {i}: registrations applied {sorted(rid for _, rid in got)}, designated {sorted(rid for rid, _ in want)}"
             offs = dict(want)
             bounds = case.bounds(i)
-            last_ok = bounds[-2] if x["kind"] == "c" and x["ins"][-1][0] in ("jmp", "jcc", "call", "ret") else bounds[-1]
+            last_ok = bounds[-2] if x["kind"] == "c" and x["ins"][-1][0] in irgen.TERMINATORS else bounds[-1]
             for o, rid in got:
                 if offs[rid] is not None and o != offs[rid]:
                     return f"block {i}: registration {rid} placed at {o}, asked for {offs[rid]}"
